@@ -47,7 +47,61 @@ async fn lib_attempt(addr: &str, ca: &Path, cert: &Path, key: &Path, topic: &str
     }
 }
 
-pub fn run(rep: &mut StageReport, tier: &str, _seed: u64) {
+/// The server is started (as a child process, like the real binary) with a `--ca` path that does not exist, from a
+/// working directory that holds another hierarchy's certificates at the stock location `certs/server/…` (what
+/// `gen-certs` writes by default). It must not come up trusting that other hierarchy: either it refuses to start, or
+/// it admits nobody certified by it.
+async fn missing_ca_file(exe: &str, a: &Certs, b: &Certs, round: usize) -> (String, bool, std::result::Result<(), String>) {
+    let cell = "server: started with a --ca file that does not exist, in a directory whose certs/server/ holds another CA → client certified by that other CA".to_string();
+    let cwd = scratch_dir().join(format!("cwd-{}-{}", std::process::id(), round));
+    let stock = cwd.join("certs/server");
+    if std::fs::create_dir_all(&stock).is_err() {
+        return (cell, false, Err("INCONCLUSIVE could not create the working directory".into()));
+    }
+    for (from, name) in [(b.server_ca(), "ca.der"), (b.server_cert(), "localhost.der"), (b.server_key(), "localhost.key.der")] {
+        let _ = std::fs::copy(from, stock.join(name));
+    }
+    let addr_file = cwd.join("addr");
+    let child = std::process::Command::new(exe)
+        .current_dir(&cwd)
+        .args(["--serve", "--certs", &a.dir.to_string_lossy(), "--addr-file", &addr_file.to_string_lossy(), "--ca", &a.dir.join("server/ca-rotated-away.der").to_string_lossy()])
+        .stdout(std::process::Stdio::null())
+        .stderr(std::process::Stdio::null())
+        .spawn();
+    let mut child = match child {
+        Ok(c) => c,
+        Err(e) => return (cell, false, Err(format!("INCONCLUSIVE spawn: {e}"))),
+    };
+    let t0 = std::time::Instant::now();
+    let mut addr: Option<SocketAddr> = None;
+    while t0.elapsed() < Duration::from_secs(6) {
+        if let Ok(Some(_)) = child.try_wait() {
+            break; // refused to start: the right answer
+        }
+        if let Ok(sa) = std::fs::read_to_string(&addr_file) {
+            if let Ok(x) = sa.trim().parse() {
+                addr = Some(x);
+                break;
+            }
+        }
+        tokio::time::sleep(Duration::from_millis(30)).await;
+    }
+    let verdict = match addr {
+        None => Err("the server did not come up (it refused to start without its CA)".to_string()),
+        Some(sa) => {
+            // it is up: whom does it admit? a client of the *other* hierarchy, trusting whatever the server presents
+            let id_b = ClientIdentity::Cert(read_der(&b.client_cert()).unwrap(), read_der(&b.client_key()).unwrap());
+            let r = raw_attempt(sa, &read_der(&a.client_ca()).unwrap(), id_b, &format!("/c15r{}/missing-ca", round)).await;
+            r.map_err(|e| format!("refused: {}", e))
+        }
+    };
+    let _ = child.kill();
+    let _ = child.wait();
+    let _ = std::fs::remove_dir_all(&cwd);
+    (cell, false, verdict)
+}
+
+pub fn run(rep: &mut StageReport, tier: &str, _seed: u64, exe: &str) {
     let rounds = if tier == "thorough" { 40 } else { 6 };
     rep.max_samples = 14;
     let rt = runtime(4);
@@ -208,6 +262,7 @@ pub fn run(rep: &mut StageReport, tier: &str, _seed: u64) {
             v.push(("lib: client built from the same path after the file was replaced by CA-B (cert B) → server B: must work".to_string(), true, lib_attempt(&sb.endpoint(), &deployed, &b.client_cert(), &b.client_key(), &t(24)).await));
             let _ = std::fs::write(&deployed, read_der(&a.client_ca()).unwrap());
             v.push(("lib: the file is switched back to CA-A (cert B) → server B".to_string(), false, lib_attempt(&sb.endpoint(), &deployed, &b.client_cert(), &b.client_key(), &t(25)).await));
+            v.push(missing_ca_file(exe, &a, &b, round).await);
             let _ = std::fs::remove_dir_all(&pem_dir);
             sa.stop();
             sb.stop();
